@@ -710,7 +710,7 @@ pub fn generate(tape: &[u16], profile: &Profile) -> Wit {
                         let rename = if g.t.chance(1, 4) { Some(format!("{}-renamed", k.name)) } else { None };
                         let mut k2 = k.clone();
                         k2.name = rename.clone().unwrap_or(k.name.clone());
-                        if prefill.iter().any(|p: &Known| p.name == k2.name) {
+                        if prefill.iter().any(|p: &Known| p.name.eq_ignore_ascii_case(&k2.name)) {
                             continue;
                         }
                         prefill.push(k2);
@@ -851,6 +851,8 @@ pub fn generate(tape: &[u16], profile: &Profile) -> Wit {
                 }
                 if srcs.iter().any(|s| exported_keys.contains(s) && !imported.contains(&path_of(&built, s.0, &s.1))) {
                     // keep clear of `use` from (a dependency of) an interface that is only exported
+                } else if world_names.iter().any(|n| n.eq_ignore_ascii_case(&k.name)) {
+                    // kebab names are case-insensitive: `ffi-X` clashes with `ffi-x`
                 } else if world_names.insert(k.name.clone()) {
                     items.push(WorldItem::Use(path, vec![(k.name.clone(), None)]));
                     g.features.insert("world-level-use");
